@@ -123,6 +123,9 @@ fn through_door<T: Target, V: Carrier>(door: Door, scene: &Scene, faces: &[Tri<u
             let ident = Mat4x4::<RealToReal<3, World, re::render::View>>::identity();
             let mut cam = if l <= r && t <= b && (l + t) % 2 == 1 { Camera::new((scene.bw, scene.bh)).viewport((l..r, t..b)).mode(ident) } else { let c = Camera::new((scene.bw, scene.bh)).mode(ident); if l <= r && t <= b { c.viewport((l..r, t..b)) } else { c } };
             if !(l <= r && t <= b) { cam.viewport = vp; }
+            // a camera put together field by field (all fields are public): the viewport matrix is what render() goes by,
+            // the recorded dimensions are whatever the literal says - here the Default, (0, 0)
+            if l <= r && t <= b && (l * 3 + t + r) % 4 == 2 { cam = Camera { mode: ident, dims: (0, 0), project: Mat4x4::identity(), viewport: vp }; }
             cam.project = Mat4x4::identity();
             let to_world: Mat4x4<RealToReal<3, World, World>> = Mat4x4::identity();
             // (this door also goes through the library's closure-based Shader wrapper instead of a hand-written shader type)
